@@ -31,7 +31,13 @@ Definition result_row (r : result) (v : values) : row :=
 (* ---------- progress bar ---------- *)
 Record pbar := mkPbar { pb_best : score; pb_pos : option pos; pb_since : Z }.
 Definition pbar_init : pbar := mkPbar SNInf None 0.
+Definition is_none {A} (o : option A) : bool := match o with None => true | Some _ => false end.
+(* score_new > score_best or (pos_best is None and score_new == score_best) *)
+Definition better (s best : score) (p : option pos) : bool := sgt s best || (is_none p && seqb s best).
 Definition new2best (b : pbar) (s : score) (p : pos) : pbar :=
+  if better s (pb_best b) (pb_pos b) then mkPbar s (Some p) (pb_since b) else b.
+(* the unchanged tree's strict test (never adopts a position for a score tying the initial -inf) *)
+Definition new2best_strict (b : pbar) (s : score) (p : pos) : pbar :=
   if sgt s (pb_best b) then mkPbar s (Some p) (pb_since b) else b.
 Definition pbar_update_lvl0 (b : pbar) (s : score) (p : pos) (nth_iter : Z) : pbar := new2best b s p.
 Definition pbar_update_lvl1 (b : pbar) (s : score) (p : pos) (nth_iter : Z) : pbar :=
